@@ -113,3 +113,56 @@ Proof.
     unfold uni_state, iter_total, q_iter_chunks. cbn [chunks map snd sumN fold_right c_ptr c_foot c_data c_nswf].
     split; [constructor; [exact Fa | constructor] | unfold c_foot; cbn [c_data c_nswf]; lia].
 Qed.
+
+(* ---------- whole uniform histories ---------- *)
+From BV Require Import ArenaSafeThm.
+
+(* the operations of a uniform history: allocations of one alignment Au with sizes that are
+   multiples of it, and resets *)
+Definition uni_op (Au : N) (o : op) : Prop :=
+  match o with OAlloc l => uni_req Au l | OReset => True | _ => False end.
+
+(* the bytes allocated since the last reset, read off the run *)
+Fixpoint uni_total (k : cfg) (g : gstate) (h : list (op * acquirer)) (acc : N) : N :=
+  match h with
+  | [] => acc
+  | (o, A) :: r =>
+      let r1 := gstep k A g o in
+      uni_total k (fst r1) r
+        (match o with
+         | OAlloc l => acc + (match o_res (snd r1) with ROk _ => l_size l | _ => 0 end)
+         | OReset => 0
+         | _ => acc
+         end)
+  end.
+
+Theorem uniform_history k Au : cfg_ok k -> uni_cfg k Au ->
+  forall h g acc, Inv k g -> uni_state Au (fst g) -> iter_total (fst g) = acc ->
+    hist_ok k g h -> Forall (fun oa => uni_op Au (fst oa)) h ->
+    uni_state Au (fst (grun k g h)) /\ iter_total (fst (grun k g h)) = uni_total k g h acc.
+Proof.
+  intros K U. induction h as [|[o A] r IH]; intros g acc HI St Ht HH HU; cbn [grun uni_total].
+  - split; assumption.
+  - destruct HH as (Hwf & Hnr & HA & HH). inversion HU as [|? ? Ho Hr]; subst. cbn [fst] in Ho.
+    pose proof (gstep_inv k A g o K HI Hwf Hnr HA) as HI1.
+    destruct HI as [HC HB].
+    destruct o; cbn [uni_op] in Ho; try contradiction.
+    + (* alloc *)
+      destruct (uniform_alloc_exact k A Au (fst g) l K HC HA U Ho St) as [St1 T1].
+      apply IH; [exact HI1 | exact St1 | | exact HH | exact Hr].
+      unfold gstep. cbn [fst snd step]. rewrite T1. reflexivity.
+    + (* reset *)
+      destruct (uniform_reset k Au (fst g) K HC U) as [St1 T1].
+      apply IH; [exact HI1 | exact St1 | | exact HH | exact Hr].
+      unfold gstep. cbn [fst snd step]. exact T1.
+Qed.
+
+(* from a fresh arena: after any uniform history the slices hold exactly the bytes of the
+   allocations that succeeded since the last reset *)
+Corollary uniform_history_fresh k Au h : cfg_ok k -> uni_cfg k Au ->
+  hist_ok k (fresh, []) h -> Forall (fun oa => uni_op Au (fst oa)) h ->
+  sp_iter_exact (q_iter_chunks (fst (grun k (fresh, []) h))) (uni_total k (fresh, []) h 0) = true.
+Proof.
+  intros K U HH HU. apply sp_iter_exact_total.
+  apply (uniform_history k Au K U h (fresh, []) 0 (Inv_fresh k)); [constructor | reflexivity | exact HH | exact HU].
+Qed.
